@@ -29,7 +29,7 @@ type Query { pet: Pet catOrDog: CatOrDog dog: Dog }
 '''
 ATOMS = ["name", "x: name", "x: nick", "x: vol", "x: tags", "x: tagsNN", "x: barkVolume", "x: meowVolume",
          "x: does(cmd: 1)", "x: does(cmd: 2)", "x: id", "x: kind", "x: sub { v }", "x: sub { y: v }",
-         "x: sub { y: w }", "friend { x: name }", "friend { x: nick }", "friend { ...OnDogX }"]
+         "x: sub { y: w }", "friend { x: name }", "friend { x: nick }", "friend { ...OnDogX }", "x: __typename"]
 # atoms that only exist on Dog / Cat are wrapped in a fragment of that type by the generator
 DOG_ONLY = {"x: barkVolume"}
 CAT_ONLY = {"x: meowVolume"}
@@ -74,6 +74,10 @@ def reference_conflict(schema, doc):
     frags = {d.name.value: d for d in doc.definitions if isinstance(d, FragmentDefinitionNode)}
 
     def field_def(parent, name):
+        if name == "__typename" and parent is not None:
+            # the meta field every composite type has (specification: Type Name Introspection): String!
+            from graphql.type import TypeNameMetaFieldDef
+            return TypeNameMetaFieldDef
         if parent is None or not (is_object_type(parent) or is_interface_type(parent)):
             return None
         return parent.fields.get(name)
